@@ -26,8 +26,9 @@ def summaryEntries (s : Disc) (f : String) (table rawTable : LabelTable) : List 
   let isQuant := decide (f ∈ s.quant)
   let main := table.filterMap (fun vl =>
     let v := vl.1
-    -- `if not (not self.dropna and value == self.str_nan)`
-    if !s.dropna && (nanVal s.strNan == some v) then none
+    -- `if not (not self.features_dropna.get(feature, self.dropna) and value == self.str_nan)` (repaired: the test used to
+    -- read the object's `dropna`, so missing values grouped by `update_discretizer` on a `dropna=False` object were not listed)
+    if !((aget? s.featDropna f).getD s.dropna) && (nanVal s.strNan == some v) then none
     else if isQuant then
       -- content is the raw (str) label of the value
       some ((aget? rawTable v).getD v, vl.2)
